@@ -2,6 +2,7 @@ package rules
 
 import (
 	"fmt"
+	"go/token"
 	"go/types"
 	"strings"
 
@@ -177,14 +178,45 @@ func builtType(fn *ssa.Function) *types.Named {
 	var nt *types.Named
 	for _, b := range fn.Blocks {
 		for _, in := range b.Instrs {
-			if al, ok := in.(*ssa.Alloc); ok && al.Comment == "complit" {
-				if n, ok := al.Type().(*types.Pointer).Elem().(*types.Named); ok {
-					nt = n.Origin()
+			switch x := in.(type) {
+			case *ssa.Alloc:
+				if n, ok := x.Type().(*types.Pointer).Elem().(*types.Named); ok {
+					if _, isS := n.Underlying().(*types.Struct); isS && n.Obj().Pkg() == fn.Pkg.Pkg {
+						nt = n.Origin()
+					}
+				}
+			case *ssa.MakeInterface:
+				t := x.X.Type()
+				if p, ok := t.(*types.Pointer); ok {
+					t = p.Elem()
+				}
+				if n, ok := t.(*types.Named); ok {
+					if _, isS := n.Underlying().(*types.Struct); isS && n.Obj().Pkg() == fn.Pkg.Pkg {
+						nt = n.Origin()
+					}
 				}
 			}
 		}
 	}
 	return nt
+}
+
+// iterFieldsOf: names of the struct's fields that are iterators (have a Next() bool method), in declaration order.
+func iterFieldsOf(nt *types.Named) []string {
+	st, ok := nt.Underlying().(*types.Struct)
+	if !ok {
+		return nil
+	}
+	var out []string
+	for i := 0; i < st.NumFields(); i++ {
+		ms := types.NewMethodSet(st.Field(i).Type())
+		if sel := ms.Lookup(nil, "Next"); sel != nil {
+			if sig, isSig := sel.Type().(*types.Signature); isSig && sig.Params().Len() == 0 && sig.Results().Len() == 1 {
+				out = append(out, st.Field(i).Name())
+			}
+		}
+	}
+	return out
 }
 
 func iterMethod(c *core.Ctx, nt *types.Named, name string) *ssa.Function {
@@ -230,7 +262,12 @@ func runIter(c *core.Ctx, pkg string, pair bool) {
 		if fn.Parent() != nil {
 			continue
 		}
-		an := c.Analyze(fn)
+		// entry points only: exported constructors and the methods of the combinator types; unexported helper
+		// functions are covered where they are inlined (their callers establish their preconditions)
+		if fn.Signature.Recv() == nil && !token.IsExported(fn.Name()) {
+			continue
+		}
+		an := c.AnalyzeLoops(fn)
 		name := sh + "." + fnLabel(fn)
 		if problems(c, "nil-is-empty", name, an) {
 			continue
@@ -281,6 +318,39 @@ func runIter(c *core.Ctx, pkg string, pair bool) {
 	if pair {
 		kvRules(c, pkg)
 	}
+}
+
+// arrivesAdvanced: path p starts at a loop head, and on every way into that head the last thing done with the
+// outer iterator was a successful Next (so the element p expands first is a new one).
+func arrivesAdvanced(an *ir.Analysis, p *ir.Path, isOuter func(*ir.Term) bool) bool {
+	if p.From == nil {
+		return false
+	}
+	n := 0
+	for _, segs := range an.Segs {
+		for _, q := range segs {
+			if q.To != p.From {
+				continue
+			}
+			n++
+			evs := iterEvents(q)
+			ok := false
+			for i := len(evs) - 1; i >= 0; i-- {
+				e := evs[i]
+				if e.kind == "user" {
+					break
+				}
+				if e.kind == "next" && isOuter(e.on) {
+					ok = polarity(q, e.st.R) > 0
+					break
+				}
+			}
+			if !ok {
+				return false
+			}
+		}
+	}
+	return n > 0
 }
 
 // nilFactAtStart: t != nil was established on every way into the segment's start (facts survive the merge at loop heads).
@@ -450,7 +520,7 @@ func takeWhileRules(c *core.Ctx, pkg string, pair bool) {
 		return
 	}
 	// constructor: non-nil result only with seq != nil and predicate(current) true; literal {Seq: seq, f: f}
-	an := c.Analyze(ctor)
+	an := c.AnalyzeLoops(ctor)
 	name := sh + ".TakeWhile"
 	ok := true
 	nObj := 0
@@ -479,7 +549,7 @@ func takeWhileRules(c *core.Ctx, pkg string, pair bool) {
 		lit := p.End.MemAt(r)
 		good := r.Op == "alloc" && lit != nil && lit.Op == "lit" && user != nil && polarity(p, user.st.R) > 0 && paramOf(user.on, ctor, 1)
 		if good {
-			good = paramOf(fieldOf2(lit, "Seq"), ctor, 0) && paramOf(fieldOf2(lit, "f"), ctor, 1)
+			good = litHolds(lit, ctor, 0) && litHolds(lit, ctor, 1)
 		}
 		if !good {
 			ok = false
@@ -488,13 +558,24 @@ func takeWhileRules(c *core.Ctx, pkg string, pair bool) {
 	}
 	c.Check(ok && nObj > 0, "eager-position", name, ctor.Pos(), "nil unless f(first); {Seq: seq, f: f}", "constructor shape not recognised")
 	if next := iterMethod(c, nt, "Next"); next != nil {
-		nan := c.Analyze(next)
+		nan := c.AnalyzeLoops(next)
 		if !problems(c, "next-protocol", sh+".takeWhile.Next", nan) {
 			predicateNext(c, "next-protocol", sh+"."+nt.Obj().Name()+".Next", next, nan, pair, false)
 		}
 	} else {
 		c.Fail("next-protocol", sh+".takeWhile.Next", ctor.Pos(), "the type built by TakeWhile has no Next of its own: it would keep yielding after the predicate fails")
 	}
+}
+
+// litHolds: exactly one field of the literal holds parameter i of fn.
+func litHolds(lit *ir.Term, fn *ssa.Function, i int) bool {
+	n := 0
+	for _, kv := range ir.LitFields(lit) {
+		if paramOf(kv.Args[0], fn, i) {
+			n++
+		}
+	}
+	return n == 1
 }
 
 func fieldOf2(lit *ir.Term, name string) *ir.Term {
@@ -516,7 +597,7 @@ func dropWhileRules(c *core.Ctx, pkg string) {
 		c.Undecided("eager-position", name, 0, "anchor not found")
 		return
 	}
-	an := c.Analyze(fn)
+	an := c.AnalyzeLoops(fn)
 	if problems(c, "eager-position", name, an) {
 		return
 	}
@@ -589,7 +670,7 @@ func filterRules(c *core.Ctx, pkg string, pair bool) {
 		c.Undecided("eager-position", name, 0, "constructor or its type not found")
 		return
 	}
-	an := c.Analyze(ctor)
+	an := c.AnalyzeLoops(ctor)
 	if problems(c, "eager-position", name, an) {
 		return
 	}
@@ -624,7 +705,7 @@ func filterRules(c *core.Ctx, pkg string, pair bool) {
 			lit = p.End.MemAt(r)
 		}
 		good := lit != nil && lit.Op == "lit" && user != nil && polarity(p, user.st.R) > 0 && (next == nil || next.idx < user.idx) &&
-			paramOf(fieldOf2(lit, "Seq"), ctor, 0) && paramOf(fieldOf2(lit, "f"), ctor, 1)
+			litHolds(lit, ctor, 0) && litHolds(lit, ctor, 1)
 		if !good {
 			ok = false
 			c.Fail("eager-position", name, lastPos(p), "a non-empty result must be {Seq: seq, f: f} positioned on an element for which f held; found %s", short(lit))
@@ -632,7 +713,7 @@ func filterRules(c *core.Ctx, pkg string, pair bool) {
 	}
 	c.Check(ok && nObj > 0, "eager-position", name, ctor.Pos(), "skip until f(current); nil when exhausted", "shape not recognised")
 	if next := iterMethod(c, nt, "Next"); next != nil {
-		nan := c.Analyze(next)
+		nan := c.AnalyzeLoops(next)
 		if !problems(c, "next-protocol", sh+".filter.Next", nan) {
 			predicateNext(c, "next-protocol", sh+"."+nt.Obj().Name()+".Next", next, nan, pair, true)
 		}
@@ -649,18 +730,35 @@ func plusRules(c *core.Ctx, pkg string) {
 		c.Undecided("eager-position", name, 0, "constructor or its type not found")
 		return
 	}
-	an := c.Analyze(ctor)
+	an := c.AnalyzeLoops(ctor)
 	if problems(c, "eager-position", name, an) {
 		return
 	}
-	// struct fields: the embedded current iterator and the pending right operand
-	st := nt.Underlying().(*types.Struct)
+	its := iterFieldsOf(nt)
+	next := iterMethod(c, nt, "Next")
+	nname := sh + "." + nt.Obj().Name() + ".Next"
+	if len(its) != 2 || next == nil {
+		c.Fail("eager-position", name, ctor.Pos(), "the concatenation type must have two iterator fields and a Next of its own (found %d fields)", len(its))
+		return
+	}
+	nan := c.AnalyzeLoops(next)
+	if problems(c, "next-protocol", nname, nan) {
+		return
+	}
+	// roles: cur = the field Next advances; pend = the other one
 	cur, pend := "", ""
-	for i := 0; i < st.NumFields(); i++ {
-		if st.Field(i).Embedded() {
-			cur = st.Field(i).Name()
-		} else {
-			pend = st.Field(i).Name()
+	for _, p := range nan.AllPaths() {
+		for _, e := range iterEvents(p) {
+			if e.kind == "next" {
+				if f := fieldOfRecv(next, e.on); f != "" {
+					cur = f
+				}
+			}
+		}
+	}
+	for _, f := range its {
+		if f != cur {
+			pend = f
 		}
 	}
 	ok := cur != "" && pend != ""
@@ -675,43 +773,36 @@ func plusRules(c *core.Ctx, pkg string) {
 		l, r := polarity(p, nilAtom(0)), polarity(p, nilAtom(1))
 		res := p.Results[0]
 		switch {
-		case l > 0:
-			if !paramOf(res, ctor, 1) {
+		case paramOf(res, ctor, 1):
+			// right operand returned: correct iff the left one is empty
+			if l <= 0 {
 				ok = false
-				c.Fail("eager-position", name, lastPos(p), "with an empty left operand the right one must be returned, found %s", short(res))
+				c.Fail("eager-position", name, lastPos(p), "the right operand alone is returned without the left one being empty")
 			}
-		case l < 0 && r > 0:
-			if !paramOf(res, ctor, 0) {
+		case paramOf(res, ctor, 0):
+			if r <= 0 {
 				ok = false
-				c.Fail("eager-position", name, lastPos(p), "with an empty right operand the left one must be returned, found %s", short(res))
+				c.Fail("eager-position", name, lastPos(p), "the left operand alone is returned without the right one being empty")
 			}
-		case l < 0 && r < 0:
+		case res.IsNil():
+			if !(l > 0 && r > 0) {
+				ok = false
+				c.Fail("eager-position", name, lastPos(p), "nil is returned although an operand may be non-empty")
+			}
+		default:
 			lit := p.End.MemAt(res)
-			if !(res.Op == "alloc" && lit != nil && paramOf(fieldOf2(lit, cur), ctor, 0) && paramOf(fieldOf2(lit, pend), ctor, 1)) {
+			if !(l < 0 && r < 0 && res.Op == "alloc" && lit != nil && paramOf(fieldOf2(lit, cur), ctor, 0) && paramOf(fieldOf2(lit, pend), ctor, 1)) {
 				ok = false
-				c.Fail("eager-position", name, lastPos(p), "the concatenation must hold the left operand as current and the right one as pending; found %s", short(lit))
+				c.Fail("eager-position", name, lastPos(p), "a concatenation object must be built only for two non-empty operands, holding the left one as current and the right one as pending; found %s", short(lit))
 			}
 			if len(iterEvents(p)) != 0 {
 				ok = false
 				c.Fail("eager-position", name, lastPos(p), "Plus must not advance or read its operands")
 			}
-		default:
-			ok = false
-			c.Fail("eager-position", name, lastPos(p), "a path returns without having tested both operands for emptiness")
 		}
 	}
 	c.Check(ok, "eager-position", name, ctor.Pos(), "nil-aware concatenation", "shape not recognised")
 
-	next := iterMethod(c, nt, "Next")
-	nname := sh + "." + nt.Obj().Name() + ".Next"
-	if next == nil {
-		c.Fail("next-protocol", nname, ctor.Pos(), "the concatenation type has no Next of its own")
-		return
-	}
-	nan := c.Analyze(next)
-	if problems(c, "next-protocol", nname, nan) {
-		return
-	}
 	okN := true
 	var sawTrue, sawSwitch, sawFalse bool
 	for _, p := range nan.AllPaths() {
@@ -722,55 +813,80 @@ func plusRules(c *core.Ctx, pkg string) {
 				nexts = append(nexts, e)
 			}
 		}
-		rv, isRet := retBool(p)
-		if !isRet || len(nexts) != 1 || fieldOfRecv(next, nexts[0].on) != cur {
+		if p.Exit != ir.ExitReturn || len(p.Results) != 1 || len(nexts) != 1 || fieldOfRecv(next, nexts[0].on) != cur {
 			okN = false
-			c.Fail("next-protocol", nname, lastPos(p), "every step must advance the current operand exactly once and return a constant (advances=%d)", len(nexts))
+			c.Fail("next-protocol", nname, lastPos(p), "every step must advance the current operand exactly once (advances=%d)", len(nexts))
 			continue
 		}
-		inner := polarity(p, nexts[0].st.R)
-		stores := nonLocalStores(p)
+		R := nexts[0].st.R
+		inner := polarity(p, R)
 		pendNil := polarity(p, &ir.Term{Op: "bin", Aux: "==", Args: sorted2(ir.Nil, &ir.Term{Op: "load", Aux: "0", Args: []*ir.Term{{Op: "faddr", Aux: pend, Args: []*ir.Term{{Op: "param", Aux: next.Params[0].Name()}}}}})})
-		switch {
-		case inner > 0:
-			sawTrue = true
-			if !rv || len(stores) != 0 {
-				okN = false
-				c.Fail("next-protocol", nname, lastPos(p), "while the current operand has elements Next must return true and change nothing")
-			}
-		case inner < 0 && pendNil < 0:
-			sawSwitch = true
-			// Seq := old rhs ; rhs := nil ; true ; no rhs.Next()
-			var setCur, setPend bool
-			for _, s := range stores {
-				if s.Kind == ir.KStore && s.A[0].Op == "faddr" && paramOf(s.A[0].Args[0], next, 0) {
-					if s.A[0].Aux == cur && s.A[1].Op == "load" && s.A[1].Args[0].Op == "faddr" && s.A[1].Args[0].Aux == pend && s.A[1].Aux == "0" {
-						setCur = true
-					}
-					if s.A[0].Aux == pend && s.A[1].IsNil() {
-						setPend = true
-					}
+		stores := nonLocalStores(p)
+		// does the path switch operands?  cur := old pend ; pend := nil
+		var setCur, setPend bool
+		for _, s := range stores {
+			if s.Kind == ir.KStore && s.A[0].Op == "faddr" && paramOf(s.A[0].Args[0], next, 0) {
+				if s.A[0].Aux == cur && s.A[1].Op == "load" && s.A[1].Args[0].Op == "faddr" && s.A[1].Args[0].Aux == pend && s.A[1].Aux == "0" {
+					setCur = true
+				}
+				if s.A[0].Aux == pend && s.A[1].IsNil() {
+					setPend = true
 				}
 			}
-			if !rv || !setCur || !setPend || len(stores) != 2 {
-				okN = false
-				c.Fail("next-protocol", nname, lastPos(p), "when the current operand is exhausted and a pending one exists: current := pending, pending := nil, return true (its first element is already current) - found %d stores, result %v", len(stores), rv)
-			}
-		case inner < 0 && pendNil > 0:
-			sawFalse = true
-			if rv || len(stores) != 0 {
-				okN = false
-				c.Fail("next-protocol", nname, lastPos(p), "when both operands are exhausted Next must return false")
-			}
-		default:
+		}
+		switched := setCur && setPend && len(stores) == 2
+		if len(stores) != 0 && !switched {
 			okN = false
-			c.Fail("next-protocol", nname, lastPos(p), "a path does not decide between the three cases of concatenation")
+			c.Fail("next-protocol", nname, lastPos(p), "the only allowed state change is: current := pending, pending := nil (found %d stores)", len(stores))
+			continue
+		}
+		// result under every completion of what the path left undecided
+		res := p.Results[0]
+		for _, in := range []int{1, -1} {
+			if inner != 0 && inner != in {
+				continue
+			}
+			for _, pn := range []int{1, -1} {
+				if pendNil != 0 && pendNil != pn {
+					continue
+				}
+				wantSwitch := in < 0 && pn < 0
+				want := in > 0 || wantSwitch
+				var got, known bool
+				switch {
+				case res.IsConst() && (res.Aux == "true" || res.Aux == "false"):
+					got, known = res.Aux == "true", true
+				case ir.Same(res, R):
+					got, known = in > 0, true
+				}
+				if !known || got != want || switched != wantSwitch {
+					okN = false
+					c.Fail("next-protocol", nname, lastPos(p), "with the current operand %s and the pending one %s Next must %s; the path returns %s and switches=%v",
+						map[int]string{1: "non-exhausted", -1: "exhausted"}[in], map[int]string{1: "absent", -1: "present"}[pn],
+						map[bool]string{true: "return true", false: "return false"}[want], short(res), switched)
+					continue
+				}
+				switch {
+				case in > 0:
+					sawTrue = true
+				case wantSwitch:
+					sawSwitch = true
+				default:
+					sawFalse = true
+				}
+			}
 		}
 	}
 	c.Check(okN && sawTrue && sawSwitch && sawFalse, "next-protocol", nname, next.Pos(), "inner true | switch to pending | false", "not all three cases of the protocol are present")
 }
 
-// joinRules covers Join (and for pairs ToSeq / FromSeq): flat-map family.
+// joinRules covers Join (and for pairs ToSeq / FromSeq): the flat-map family, as a protocol automaton
+// over the events of every path (robust against how the loops are written):
+//
+//	S0 outer positioned on an unexpanded element --G--> S1 generated, untested
+//	S1 --test non-nil--> S2 (success allowed)      S1 --test nil--> S3 generated empty
+//	S3 --outer.Next true--> S0                     S3 --outer.Next false--> S4 (failure allowed)
+//	SN (Next only) inner positioned --inner.Next true--> S2 ; --inner.Next false--> S3
 func joinRules(c *core.Ctx, pkg string, pair bool) {
 	sh := pkgShort(pkg)
 	names := []string{"Join"}
@@ -784,168 +900,45 @@ func joinRules(c *core.Ctx, pkg string, pair bool) {
 			c.Undecided("eager-position", name, 0, "constructor or its type not found")
 			continue
 		}
+		// roles from types: generator = the func-typed field; cur = the field of the generator's result type;
+		// outer = the remaining field
 		st := nt.Underlying().(*types.Struct)
-		cur := ""
-		var outer, gen string
+		var cur, outer, gen string
+		var genRes types.Type
+		for i := 0; i < st.NumFields(); i++ {
+			if sig, isSig := st.Field(i).Type().Underlying().(*types.Signature); isSig && sig.Results().Len() == 1 {
+				gen, genRes = st.Field(i).Name(), sig.Results().At(0).Type()
+			}
+		}
 		for i := 0; i < st.NumFields(); i++ {
 			f := st.Field(i)
-			switch {
-			case f.Embedded():
+			if f.Name() == gen {
+				continue
+			}
+			if genRes != nil && types.Identical(f.Type(), genRes) && cur == "" {
 				cur = f.Name()
-			default:
-				if _, isSig := f.Type().Underlying().(*types.Signature); isSig {
-					gen = f.Name()
-				} else {
-					outer = f.Name()
-				}
+			} else {
+				outer = f.Name()
 			}
 		}
-		if cur == "" || outer == "" || gen == "" {
-			c.Fail("eager-position", name, ctor.Pos(), "the flat-map type does not have (embedded current, outer iterator, generator) fields")
+		if cur == "" || outer == "" || gen == "" || st.NumFields() != 3 {
+			c.Fail("eager-position", name, ctor.Pos(), "the flat-map type does not have (current inner sequence, outer iterator, generator) fields")
 			continue
 		}
-		// one rule for the constructor's loop and for Next's loop: on every path
-		//   generator called => with the outer's fresh element; its result becomes current;
-		//   result non-nil => stop with success; nil => advance outer; outer false => fail
-		check := func(fn *ssa.Function, an *ir.Analysis, isCtor bool, label string) bool {
-			ok := true
-			sawGood := false
-			for _, p := range an.AllPaths() {
-				evs := iterEvents(p)
-				var users, outerNexts, innerNexts []itEv
-				for _, e := range evs {
-					switch e.kind {
-					case "user":
-						users = append(users, e)
-					case "next":
-						isOuter := false
-						if isCtor {
-							isOuter = paramOf(e.on, fn, 0)
-						} else {
-							isOuter = fieldOfRecv(fn, e.on) == outer
-						}
-						if isOuter {
-							outerNexts = append(outerNexts, e)
-						} else {
-							innerNexts = append(innerNexts, e)
-						}
-					}
-				}
-				rv, isRet := retBool(p)
-				if isCtor && p.Exit == ir.ExitReturn {
-					isRet = true
-					rv = !p.Results[0].IsNil()
-				}
-				if len(users) > 1 || len(outerNexts) > 1 || len(innerNexts) > 1 {
-					ok = false
-					c.Fail("next-protocol", label, lastPos(p), "a path calls the generator %d times / advances the outer iterator %d times (want at most once each)", len(users), len(outerNexts))
-					continue
-				}
-				if len(users) == 1 {
-					u := users[0]
-					if !isCtor && !(len(outerNexts) == 1 && outerNexts[0].idx < u.idx && polarity(p, outerNexts[0].st.R) > 0) {
-						ok = false
-						c.Fail("next-protocol", label, u.st.Pos(), "the generator is called without the outer iterator having advanced to a new element on this path (the same outer element would be expanded again)")
-						continue
-					}
-					x, why := freshArgs(an, p, evs, u, pair && cn != "FromSeq")
-					if why != "" {
-						ok = false
-						c.Fail("next-protocol", label, u.st.Pos(), "the generator does not receive the outer iterator's current element: %s", why)
-						continue
-					}
-					if isCtor && !paramOf(x, fn, 0) || !isCtor && fieldOfRecv(fn, x) != outer {
-						ok = false
-						c.Fail("next-protocol", label, u.st.Pos(), "the generator is fed from %s, expected the outer iterator", short(x))
-					}
-					// result stored as current
-					stored := false
-					for _, s := range p.Events(ir.KStore) {
-						if s.A[0].Op == "faddr" && s.A[0].Aux == cur && ir.Same(s.A[1], u.st.R) {
-							stored = true
-						}
-					}
-					if !stored {
-						ok = false
-						c.Fail("next-protocol", label, u.st.Pos(), "the generated inner sequence does not become the current one")
-					}
-					isNil := polarity(p, &ir.Term{Op: "bin", Aux: "==", Args: sorted2(ir.Nil, u.st.R)})
-					// what follows the generator call
-					var after *itEv
-					for i := range outerNexts {
-						if outerNexts[i].idx > u.idx {
-							after = &outerNexts[i]
-						}
-					}
-					switch {
-					case isNil == 0:
-						ok = false
-						c.Fail("next-protocol", label, u.st.Pos(), "the generated sequence is not tested for nil (empty)")
-					case isNil < 0:
-						if !(isRet && rv) || after != nil {
-							ok = false
-							c.Fail("next-protocol", label, lastPos(p), "a non-empty inner sequence must end the search with success")
-						} else {
-							sawGood = true
-						}
-					case isNil > 0:
-						// must advance the outer iterator and either loop or fail when exhausted
-						if after == nil && !isCtor && p.To != nil {
-							// Next's loop: the following iteration starts by advancing the outer iterator (checked below)
-						} else if after == nil {
-							ok = false
-							c.Fail("next-protocol", label, lastPos(p), "an empty inner sequence must be skipped by advancing the outer iterator; the path stops instead (later elements would be lost)")
-						} else if pol := polarity(p, after.st.R); pol > 0 && p.To == nil {
-							ok = false
-							c.Fail("next-protocol", label, lastPos(p), "after skipping an empty inner sequence the search must continue with the next outer element, but the path stops")
-						} else if pol < 0 && !(isRet && !rv) {
-							ok = false
-							c.Fail("next-protocol", label, lastPos(p), "the outer iterator is exhausted but the result is not empty/false")
-						}
-					}
-					continue
-				}
-				// no generator call on this path
-				if !isCtor && len(innerNexts) == 1 && polarity(p, innerNexts[0].st.R) > 0 {
-					if !(isRet && rv) {
-						ok = false
-						c.Fail("next-protocol", label, lastPos(p), "the current inner sequence has an element but Next does not return true")
-					}
-					continue
-				}
-				if len(outerNexts) == 1 && polarity(p, outerNexts[0].st.R) > 0 && p.Exit == ir.ExitReturn {
-					ok = false
-					c.Fail("next-protocol", label, lastPos(p), "the outer iterator advanced to an element that is never expanded")
-				}
-				if len(outerNexts) == 1 && polarity(p, outerNexts[0].st.R) < 0 && !(isRet && !rv) {
-					ok = false
-					c.Fail("next-protocol", label, lastPos(p), "the outer iterator is exhausted but the result is not empty/false")
-				}
-				if isRet && rv && p.Exit == ir.ExitReturn && !(len(innerNexts) == 1) {
-					ok = false
-					c.Fail("next-protocol", label, lastPos(p), "success is reported without a current inner element")
-				}
-			}
-			return ok && sawGood
-		}
-		an := c.Analyze(ctor)
+		pairArgs := pair && cn != "FromSeq"
+		an := c.AnalyzeLoops(ctor)
 		if !problems(c, "eager-position", name, an) {
-			okC := check(ctor, an, true, name)
-			// literal fields
+			why := flatMapAutomaton(c, ctor, an, true, cur, outer, gen, pairArgs)
+			// the object holds the outer iterator and the generator
 			for _, p := range an.AllPaths() {
-				if p.Exit == ir.ExitReturn && !p.Results[0].IsNil() {
+				if p.Exit == ir.ExitReturn && !p.Results[0].IsNil() && why == "" {
 					lit := p.End.MemAt(p.Results[0])
 					if !(paramOf(fieldOf2(lit, outer), ctor, 0) && paramOf(fieldOf2(lit, gen), ctor, 1)) {
-						okC = false
-						c.Fail("eager-position", name, lastPos(p), "the flat-map object must hold the outer iterator and the generator; found %s", short(lit))
+						why = "the flat-map object must hold the outer iterator and the generator; found " + short(lit)
 					}
 				}
 			}
-			if okC {
-				c.Ok("eager-position", name, ctor.Pos(), "position on the first non-empty inner sequence; nil when none")
-			} else {
-				c.Fail("eager-position", name, ctor.Pos(), "constructor does not follow the flat-map protocol")
-			}
+			c.Check(why == "", "eager-position", name, ctor.Pos(), "position on the first non-empty inner sequence; nil when none", "%s", why)
 		}
 		next := iterMethod(c, nt, "Next")
 		nname := sh + "." + nt.Obj().Name() + ".Next"
@@ -953,16 +946,192 @@ func joinRules(c *core.Ctx, pkg string, pair bool) {
 			c.Fail("next-protocol", nname, ctor.Pos(), "the flat-map type has no Next of its own")
 			continue
 		}
-		nan := c.Analyze(next)
+		nan := c.AnalyzeLoops(next)
 		if problems(c, "next-protocol", nname, nan) {
 			continue
 		}
-		if check(next, nan, false, nname) {
-			c.Ok("next-protocol", nname, next.Pos(), "inner true | advance outer, expand, skip empties | false")
-		} else {
-			c.Fail("next-protocol", nname, next.Pos(), "Next does not follow the flat-map protocol")
+		why := flatMapAutomaton(c, next, nan, false, cur, outer, gen, pairArgs)
+		c.Check(why == "", "next-protocol", nname, next.Pos(), "inner true | advance outer, expand, skip empties | false", "%s", why)
+	}
+}
+
+const (
+	fmS0  = iota // outer positioned on an unexpanded element
+	fmS1         // generated, untested
+	fmS2         // non-empty inner sequence is current
+	fmS3         // need to advance the outer iterator
+	fmS4         // outer exhausted
+	fmSN         // (Next) inner positioned on a consumed element
+	fmPre        // (constructor) before the outer iterator is known non-nil
+)
+
+var fmNames = []string{"unexpanded outer element", "generated/untested", "non-empty inner current", "must advance outer", "outer exhausted", "inner positioned", "start"}
+
+func flatMapAutomaton(c *core.Ctx, fn *ssa.Function, an *ir.Analysis, isCtor bool, cur, outer, gen string, pairArgs bool) string {
+	isOuter := func(t *ir.Term) bool {
+		if isCtor {
+			return paramOf(t, fn, 0)
+		}
+		return fieldOfRecv(fn, t) == outer
+	}
+	isGen := func(t *ir.Term) bool {
+		if isCtor {
+			return paramOf(t, fn, 1)
+		}
+		return fieldOfRecv(fn, t) == gen
+	}
+	// cur value: a generator result, or a load of the cur field of the object
+	isCurVal := func(t *ir.Term) bool {
+		if _, callee, _, isC := callParts(t); isC && callee != nil && isGen(callee) {
+			return true
+		}
+		if t.Op == "load" && t.Args[0].Op == "faddr" && t.Args[0].Aux == cur {
+			return true
+		}
+		if t.Op == "field" && t.Aux == cur {
+			return true
+		}
+		return false
+	}
+	start := map[*ssa.BasicBlock]int{}
+	known := map[*ssa.BasicBlock]bool{}
+	init := fmSN
+	if isCtor {
+		init = fmPre
+	}
+	start[nil], known[nil] = init, true
+	work := []*ssa.BasicBlock{nil}
+	rounds := 0
+	for len(work) > 0 {
+		rounds++
+		if rounds > 200 {
+			return "protocol automaton did not converge"
+		}
+		h := work[0]
+		work = work[1:]
+		for _, p := range an.Segs[h] {
+			s := start[h]
+			evs := iterEvents(p)
+			for i := range p.Steps {
+				st := &p.Steps[i]
+				switch {
+				case st.Kind == ir.KBranch:
+					at := st.Atom
+					if at.Op == "bin" && at.Aux == "==" && len(at.Args) == 2 {
+						x := at.Args[0]
+						if x.IsNil() {
+							x = at.Args[1]
+						} else if !at.Args[1].IsNil() {
+							continue
+						}
+						switch {
+						case s == fmPre && isOuter(x):
+							if !st.Pol {
+								s = fmS0
+							} // nil outer: stays in fmPre, must return nil
+						case isCurVal(x) && (s == fmS1 || s == fmS2 || s == fmS3):
+							if s == fmS1 {
+								if st.Pol {
+									s = fmS3
+								} else {
+									s = fmS2
+								}
+							}
+						}
+					}
+				case st.Kind == ir.KCall && st.Method != nil && st.Method.Name() == "Next":
+					pol := polarity(p, st.R)
+					switch {
+					case isOuter(st.A[0]):
+						if s != fmS3 {
+							return fmt.Sprintf("the outer iterator is advanced in state '%s': an element of the outer sequence is skipped without being expanded", fmNames[s])
+						}
+						switch {
+						case pol > 0:
+							s = fmS0
+						case pol < 0:
+							s = fmS4
+						default:
+							return "the result of advancing the outer iterator is not tested"
+						}
+					case isCurVal(st.A[0]):
+						if s != fmSN {
+							return fmt.Sprintf("the inner sequence is advanced in state '%s'", fmNames[s])
+						}
+						switch {
+						case pol > 0:
+							s = fmS2
+						case pol < 0:
+							s = fmS3
+						default:
+							return "the result of advancing the inner sequence is not tested"
+						}
+					}
+				case st.Kind == ir.KCall && st.Method == nil && st.Callee != nil && isGen(st.Callee):
+					if s != fmS0 {
+						return fmt.Sprintf("the generator is called in state '%s' (the same outer element would be expanded twice, or none is current)", fmNames[s])
+					}
+					var u itEv
+					for _, e := range evs {
+						if e.st == st {
+							u = e
+						}
+					}
+					x, why := freshArgs(an, p, evs, u, pairArgs)
+					if why != "" {
+						return "the generator does not receive the outer iterator's current element: " + why
+					}
+					if !isOuter(x) {
+						return "the generator is fed from " + short(x) + ", expected the outer iterator"
+					}
+					// its result becomes the current inner sequence
+					stored := false
+					for j := i + 1; j < len(p.Steps); j++ {
+						s2 := &p.Steps[j]
+						if s2.Kind == ir.KStore && s2.A[0].Op == "faddr" && s2.A[0].Aux == cur && ir.Same(s2.A[1], st.R) {
+							stored = true
+						}
+					}
+					if !stored {
+						return "the generated inner sequence does not become the current one"
+					}
+					s = fmS1
+				}
+			}
+			switch {
+			case p.Exit == ir.ExitReturn:
+				success := false
+				if isCtor {
+					success = !p.Results[0].IsNil()
+				} else {
+					rv, isRet := retBool(p)
+					if !isRet {
+						return "Next does not return a constant"
+					}
+					success = rv
+				}
+				switch {
+				case success && s != fmS2:
+					return fmt.Sprintf("success is reported in state '%s' (no non-empty inner sequence is current)", fmNames[s])
+				case !success && s == fmS2:
+					return "a non-empty inner sequence is current but the result is empty/false"
+				case !success && !(s == fmS4 || s == fmPre):
+					return fmt.Sprintf("failure is reported in state '%s': later elements of the outer sequence would be lost", fmNames[s])
+				}
+			case p.To != nil:
+				if known[p.To] && start[p.To] != s {
+					return fmt.Sprintf("a loop head is reached in different protocol states ('%s' and '%s')", fmNames[start[p.To]], fmNames[s])
+				}
+				if !known[p.To] {
+					known[p.To], start[p.To] = true, s
+					work = append(work, p.To)
+				}
+			case p.Exit == ir.ExitPanic:
+				return "explicit panic"
+			}
 		}
 	}
+	return ""
 }
 
 func mapRules(c *core.Ctx, pkg string, pair bool) {
@@ -991,7 +1160,7 @@ func mapRules(c *core.Ctx, pkg string, pair bool) {
 		ok = user != nil && ir.Same(p.Results[0], user.st.R) && len(calls(p)) == len(user.st.A)+1
 		why = "Value is not f(inner current element)"
 		if ok {
-			x, w := freshArgs(c.Analyze(val), p, evs, *user, pair)
+			x, w := freshArgs(c.AnalyzeLoops(val), p, evs, *user, pair)
 			ok = w == "" && x != nil && fieldOfRecv(val, x) != "" && fieldOfRecv(val, user.on) != ""
 			if w != "" {
 				why = w
@@ -1001,12 +1170,12 @@ func mapRules(c *core.Ctx, pkg string, pair bool) {
 	if ok {
 		// Next (and Key) are not redefined
 		for _, m := range []string{"Next", "Key"} {
-			if iterMethod(c, nt, m) != nil {
+			if fm := iterMethod(c, nt, m); fm != nil && forwardsTo(c, fm) == "" {
 				ok, why = false, "the mapping type redefines "+m+": Map must not change positions or keys"
 			}
 		}
 		// constructor: nil -> nil; else {Seq: seq, f: f}
-		an := c.Analyze(ctor)
+		an := c.AnalyzeLoops(ctor)
 		for _, p := range an.AllPaths() {
 			if p.Exit != ir.ExitReturn {
 				continue
@@ -1022,14 +1191,8 @@ func mapRules(c *core.Ctx, pkg string, pair bool) {
 			if r.Op == "alloc" {
 				lit = p.End.MemAt(r)
 			}
-			st := nt.Underlying().(*types.Struct)
-			emb := ""
-			for i := 0; i < st.NumFields(); i++ {
-				if st.Field(i).Embedded() {
-					emb = st.Field(i).Name()
-				}
-			}
-			if !(lit != nil && lit.Op == "lit" && paramOf(fieldOf2(lit, emb), ctor, 0) && len(iterEvents(p)) == 0) {
+			its := iterFieldsOf(nt)
+			if !(lit != nil && lit.Op == "lit" && len(its) == 1 && paramOf(fieldOf2(lit, its[0]), ctor, 0) && len(iterEvents(p)) == 0) {
 				ok, why = false, "Map must wrap the sequence without reading it; found "+short(lit)
 			}
 		}
@@ -1112,7 +1275,7 @@ func leafRules(c *core.Ctx, pkg string, pair bool) {
 	}
 	okS := true
 	whyS := ""
-	an := c.Analyze(fs)
+	an := c.AnalyzeLoops(fs)
 	for _, p := range an.AllPaths() {
 		if p.Exit != ir.ExitReturn {
 			continue
@@ -1145,7 +1308,7 @@ func leafRules(c *core.Ctx, pkg string, pair bool) {
 		}
 	}
 	if n := iterMethod(c, snt, "Next"); n != nil {
-		nan := c.Analyze(n)
+		nan := c.AnalyzeLoops(n)
 		fld := snt.Underlying().(*types.Struct).Field(0).Name()
 		cur := &ir.Term{Op: "load", Aux: "0", Args: []*ir.Term{{Op: "faddr", Aux: fld, Args: []*ir.Term{{Op: "param", Aux: n.Params[0].Name()}}}}}
 		for _, p := range nan.AllPaths() {
@@ -1180,7 +1343,7 @@ func forEachRule(c *core.Ctx, pkg string, pair bool) {
 		c.Undecided("foreach", name, 0, "anchor not found")
 		return
 	}
-	an := c.Analyze(fn)
+	an := c.AnalyzeLoops(fn)
 	if problems(c, "foreach", name, an) {
 		return
 	}
@@ -1233,7 +1396,14 @@ func forEachRule(c *core.Ctx, pkg string, pair bool) {
 					ok, why = false, "an error returned by the visitor must be returned immediately and unchanged (found advance-after-error or another result)"
 				}
 			case errNil > 0:
-				if p.To != h || next == nil || next.idx < user.idx {
+				switch {
+				case next == nil || next.idx < user.idx:
+					ok, why = false, "after a successful visit the iterator must advance"
+				case polarity(p, next.st.R) > 0 && p.To != h:
+					ok, why = false, "after a successful visit and a successful advance the loop must continue"
+				case polarity(p, next.st.R) < 0 && !(p.Exit == ir.ExitReturn && p.Results[0].IsNil()):
+					ok, why = false, "at the end of the sequence ForEach must return nil"
+				case polarity(p, next.st.R) == 0 && p.To != h:
 					ok, why = false, "after a successful visit the iterator must advance and the loop continue"
 				}
 			}
@@ -1316,9 +1486,23 @@ func F(xs []int, ys []int) []int { xs[0] = 1; return append(xs, ys...) }`)
 	return n == 2
 }
 
+// forwardsTo: method m of a combinator type is a pure forwarder `return recv.F.m(args...)`; returns the field F ("" if not).
+func forwardsTo(c *core.Ctx, m *ssa.Function) string {
+	an := c.AnalyzeLoops(m)
+	ps := an.AllPaths()
+	if len(an.Problems) > 0 || len(ps) != 1 || ps[0].Exit != ir.ExitReturn || len(ps[0].Results) != 1 {
+		return ""
+	}
+	cs := calls(ps[0])
+	if len(cs) != 1 || cs[0].Method == nil || cs[0].Method.Name() != m.Name() || !ir.Same(ps[0].Results[0], cs[0].R) || len(nonLocalStores(ps[0])) != 0 {
+		return ""
+	}
+	return fieldOfRecv(m, cs[0].A[0])
+}
+
 // kvRules (C15): Key/Value/Next resolve through the same embedded field; Key never redefined.
 func kvRules(c *core.Ctx, pkg string) {
-	c.Doc("kv-same-path", 6, "Key, Value and Next of a pair combinator resolve through the same embedded iterator")
+	c.Doc("kv-same-path", 6, "Key, Value and Next of a pair combinator speak about the same underlying iterator")
 	pk := c.W.Pkgs[pkg]
 	sc := pk.Types.Scope()
 	for _, n := range sc.Names() {
@@ -1331,43 +1515,56 @@ func kvRules(c *core.Ctx, pkg string) {
 			continue
 		}
 		st, ok := nt.Underlying().(*types.Struct)
-		if !ok {
-			continue
-		}
-		emb := -1
-		for i := 0; i < st.NumFields(); i++ {
-			if st.Field(i).Embedded() {
-				emb = i
-			}
-		}
-		if emb < 0 {
+		if !ok || len(iterFieldsOf(nt)) == 0 {
 			continue
 		}
 		name := "pair." + n
-		// does the embedded field provide Key? (toSeq embeds a plain seq: no Key at all – fine)
-		paths := map[string][]int{}
-		own := map[string]bool{}
-		for _, m := range []string{"Key", "Value", "Next"} {
+		// source(m): the field through which method m gets its answer: promoted through an embedded field, or a pure
+		// forwarder to a field's method of the same name; "own" for a real implementation; "" when m does not exist
+		source := func(m string) string {
 			obj, idx, _ := types.LookupFieldOrMethod(nt, true, pk.Types, m)
 			if obj == nil {
-				continue
+				return ""
 			}
-			paths[m] = idx
-			own[m] = len(idx) == 1
+			if len(idx) > 1 {
+				return st.Field(idx[0]).Name()
+			}
+			if fm := iterMethod(c, nt, m); fm != nil {
+				if f := forwardsTo(c, fm); f != "" {
+					return f
+				}
+			}
+			return "own"
+		}
+		k, v, nx := source("Key"), source("Value"), source("Next")
+		if k == "" {
+			continue // a plain value sequence (toSeq): no keys
 		}
 		ok2 := true
 		why := ""
-		if own["Key"] {
-			ok2, why = false, "the combinator redefines Key: keys must come unchanged from the element the iterator is positioned on"
-		}
-		if k, has := paths["Key"]; has && !own["Key"] {
-			if v, hasV := paths["Value"]; hasV && !own["Value"] && (len(v) == 0 || v[0] != k[0]) {
-				ok2, why = false, "Key and Value resolve through different embedded fields"
+		switch {
+		case k == "own":
+			ok2, why = false, "the combinator computes Key itself: keys must come unchanged from the element the underlying iterator is positioned on"
+		case v != "own" && v != k:
+			ok2, why = false, fmt.Sprintf("Key comes from field %s but Value from field %s", k, v)
+		case nx != "own" && nx != k:
+			ok2, why = false, fmt.Sprintf("Key comes from field %s but Next advances field %s", k, nx)
+		case nx == "own":
+			// the own Next must advance the iterator Key reads from
+			adv := false
+			if fm := iterMethod(c, nt, "Next"); fm != nil {
+				for _, p := range c.AnalyzeLoops(fm).AllPaths() {
+					for _, e := range iterEvents(p) {
+						if e.kind == "next" && fieldOfRecv(fm, e.on) == k {
+							adv = true
+						}
+					}
+				}
 			}
-			if nx, hasN := paths["Next"]; hasN && !own["Next"] && nx[0] != k[0] {
-				ok2, why = false, "Key and Next resolve through different embedded fields"
+			if !adv {
+				ok2, why = false, "Next never advances the iterator Key reads from"
 			}
 		}
-		c.Check(ok2, "kv-same-path", name, tn.Pos(), fmt.Sprintf("Key via %v, Value own=%v, Next own=%v", paths["Key"], own["Value"], own["Next"]), "%s", why)
+		c.Check(ok2, "kv-same-path", name, tn.Pos(), fmt.Sprintf("Key via %s, Value via %s, Next via %s", k, v, nx), "%s", why)
 	}
 }
